@@ -363,6 +363,16 @@ func (m *Model) valid(sn any, v any, p Pos) Verdict {
 			union[k] = pa.s
 		}
 	}
+	if m.dev("NULL_FIRST_OBJECT_BRANCHES_ARE_ANY") {
+		// as built: the merge classifies a branch by Type[0]; when every typed branch of a composite list is a nullable object
+		// spelled null-first (["null","object"]) the list counts as primitive, the merged type is empty and the position is interface{}
+		for _, ck := range []string{"allOf", "anyOf"} {
+			if list, ok := s[ck].([]any); ok && len(list) > 0 && m.allNullFirstObjects(list, p.File) {
+				m.fire("NULL_FIRST_OBJECT_BRANCHES_ARE_ANY")
+				return Accept
+			}
+		}
+	}
 	if all, ok := s["allOf"].([]any); ok {
 		if m.dev("ALLOF_MERGE_MUTATES_SHARED_DEFINITION") && len(all) > 0 {
 			all = m.leakInto(all, p.File)
@@ -1159,6 +1169,27 @@ func (m *Model) firstWins(branches []any, file string) []any {
 		out[i] = cp
 	}
 	return out
+}
+
+func (m *Model) allNullFirstObjects(list []any, file string) bool {
+	typed := 0
+	for _, b := range list {
+		bm, _ := b.(map[string]any)
+		if ref, ok := bm["$ref"].(string); ok {
+			if t, _, err := m.Resolve(ref, file); err == nil {
+				bm, _ = t.(map[string]any)
+			}
+		}
+		tl := typeList(bm)
+		if len(tl) == 0 {
+			continue
+		}
+		typed++
+		if !(len(tl) == 2 && tl[0] == "null" && tl[1] == "object") {
+			return false
+		}
+	}
+	return typed > 0
 }
 
 // mergeLeaks collects, for the as-built deviation ALLOF_MERGE_MUTATES_SHARED_DEFINITION, what the merge of every allOf / anyOf
